@@ -258,7 +258,23 @@ func c18Run(env *fw.Env, raw json.RawMessage) fw.Outcome {
 	}
 	fa, okA := final(resA, planA)
 	fb, okB := final(resB, planB)
-	if !okA || !okB {
+	// A call that returned before the end of its script (a Return in K that was accepted, or a
+	// replay that accepts the line) has the returned line as its effect; when only one of the
+	// two sessions returned early, replaying did not have the effect of retyping.
+	earlyA := !okA && resA.Returned && resA.Err == ""
+	earlyB := !okB && resB.Returned && resB.Err == ""
+	switch {
+	case earlyA && earlyB:
+		fa, fb = "returned:"+resA.Line, "returned:"+resB.Line
+		o.Add("pairs_that_both_returned_before_the_end_of_the_script", 1)
+	case earlyA != earlyB && (okA || earlyA) && (okB || earlyB):
+		which := "retyped"
+		if earlyB {
+			which = "recorded-then-replayed"
+		}
+		o.Viol("only-one-session-returned-before-the-end-of-its-script|"+c.Style, ctx+fmt.Sprintf("\nthe %s session returned (%q, %q) before the end of its script, the other one went on to its end (buffers: retyped %q, replayed %q)", which, resA.Line+resB.Line, resA.Err+resB.Err, fa, fb))
+		return o.O
+	case !okA || !okB:
 		o.Inc("final buffer not observed")
 		return o.O
 	}
